@@ -248,6 +248,29 @@ def check(col: Collector):
     if ex is None or ev_ is None:
         col.fail("C19.R3", "MadxEnv.__init__#evaluators", esx.loc(esx.fn), "madexpr/madeval are MadxEval(...).eval", "")
     else:
+        # arguments by parameter, however they were passed
+        init_ = repo.method("MadxEval", "__init__")
+        pnames = A.params(init_)[1:]
+        dflt = A.param_defaults(init_)
+
+        def by_param(c):
+            pos, kws = list(c[2]), dict(c[3])
+            vals, extra = [], []
+            for i, pn in enumerate(pnames):
+                if i < len(pos):
+                    vals.append(pos[i])
+                elif pn in kws:
+                    vals.append(kws.pop(pn))
+                elif pn in dflt:
+                    extra.append((pn, ("default",)))
+                    continue
+                else:
+                    return None
+            return ("call", c[1], tuple(vals[:3]), tuple((pn, v) for pn, v in zip(pnames[3:], vals[3:])) + tuple(sorted(kws.items())))
+        ex2, ev2 = by_param(ex), by_param(ev_)
+        if ex2 is None or ev2 is None:
+            raise AnalysisError("MadxEnv.__init__: the arguments of MadxEval(...) are not recognised (cannot decide)")
+        ex, ev_ = ex2, ev2
         same_mode = ex[3] == ev_[3] and len(ex[2]) == len(ev_[2]) == 3
         col.add("C19.R3", "MadxEnv.__init__#same-evaluator-and-mode", same_mode, esx.loc(esx.fn),
                 "both evaluators are MadxEval with the same element access mode", f"{S.show(ex)[:80]} / {S.show(ev_)[:80]}")
